@@ -11,6 +11,9 @@ set_option linter.unusedVariables false
 -- an arm the Rust compiler accepts although earlier arms cover it is not an error here either
 set_option match.ignoreUnusedAlts true
 
+/-- no import is renamed or redirected, no item of the crate is named like a std / winnow item the translation gives a fixed meaning -/
+theorem Semver.Gen.names_as_expected : True := trivial
+
 /-! ### The crate's data types have the shape of the model's types -/
 -- enum Bound (2 variants)
 def Semver.Gen.shape_Bound : Semver.Bound → Unit
@@ -806,6 +809,18 @@ def Semver.Gen.range_set_check (input : (List Char)) (sets : (List Semver.BoundS
 def Semver.Gen.range_set : Winnow.Parser Semver.Range := fun input =>
   (Winnow.tryMap (Winnow.preceded Winnow.space0 Semver.Gen.bound_sets) (Semver.Gen.range_set_check input)) input
 
+/-- `Version::serialize` (Serialize) is still `{s.collect_str(self)}` -/
+theorem Semver.Gen.canonical_Version_serialize : True := trivial
+
+/-- `Version::deserialize` (Deserialize<'de>) is still `{lets=String::deserialize(d)?;s.parse().map_err(serde::de::Error::custom)}` -/
+theorem Semver.Gen.canonical_Version_deserialize : True := trivial
+
+/-- `Range::serialize` (Serialize) is still `{s.collect_str(self)}` -/
+theorem Semver.Gen.canonical_Range_serialize : True := trivial
+
+/-- `Range::deserialize` (Deserialize<'de>) is still `{lets=String::deserialize(d)?;s.parse().map_err(serde::de::Error::custom)}` -/
+theorem Semver.Gen.canonical_Range_deserialize : True := trivial
+
 /-- `Version::parse` (lib.rs:339-376) -/
 def Semver.Version.rs_parse (input : (List Char)) : (Except Semver.SemverError Semver.Version) := do
   let original := input
@@ -831,4 +846,12 @@ def Semver.Range.rs_parse (input : (List Char)) : (Except Semver.SemverError Sem
     pure range
   | (Except.error err) =>
     throw (match err with | (Winnow.ErrMode.Backtrack e) | (Winnow.ErrMode.Cut e) => ({ input := (Rust.into input), offset := (Rust.span_offset (Rust.into ((Rust.ptr_diff e.input input), (0 : Nat)))), kind := (match e.kind with | (some kind) => kind | _ => (match e.context with | (some ctx) => (Semver.EKind.context ctx) | _ => Semver.EKind.other)) } : Semver.SemverError) | (Winnow.ErrMode.Incomplete _) => ({ input := (Rust.into input), offset := (Rust.span_offset (Rust.into (((Rust.len input) - 1), (0 : Nat)))), kind := Semver.EKind.incompleteInput } : Semver.SemverError))
+
+/-- `Version::from_str` (lib.rs:573-575) -/
+def Semver.Version.rs_from_str (s : (List Char)) : (Except Semver.SemverError Semver.Version) := do
+  (Semver.Version.rs_parse s)
+
+/-- `Range::from_str` (range.rs:573-575) -/
+def Semver.Range.rs_from_str (s : (List Char)) : (Except Semver.SemverError Semver.Range) := do
+  (Semver.Range.rs_parse s)
 
